@@ -1,5 +1,6 @@
 (** Property C04 -- proceeds, cost basis and gain of every fraction are arithmetically exact. *)
-From RP2V Require Import Base.Prelude Base.Time Base.Dec Model.Types Model.Generated Model.Txn Proofs.DecProofs Proofs.C04Proofs.
+From RP2V Require Import Base.Prelude Base.Time Base.Dec Model.Types Model.Generated Model.Txn Model.Computed Model.ComputedSpec Model.NumberSpec
+  Proofs.DecProofs Proofs.C04Proofs Proofs.FiatSumProofs Proofs.C04Reassembly.
 From Coq Require Import QArith Qabs.
 Open Scope Z_scope.
 
@@ -48,6 +49,47 @@ Theorem C04_reassembly : forall (F A : Q) (xs : list Q),
   (~ A == 0 -> sumQ xs == A -> sumQ (map (fun x => F * x / A) xs) == F)%Q.
 Proof. exact reassembly_exact. Qed.
 
+(** ... and in the decimal arithmetic the code uses.  [prorated F A x r]: x > 0 and r is the computed (F * x) / A
+    (31-digit multiply, then 31-digit divide).  For parts x_1..x_n that sum to A > 0 (C02: an event's fractions; a fully
+    consumed lot's fractions):
+    - the EXACT RATIONAL SUM of the computed decimals r_i is within 1.1e-30 * |F| of F, whatever n
+      ([qsum] = exact sum of the values, [C11] = 1.1e-30);
+    - their 31-digit left-to-right sum ([dsum], what the yearly summary computes, C06) is within n * 2.2e-30 * |F|
+      ([C22] = 2.2e-30 = rounding of each addition 1e-30 * (1 + 1.1e-30) plus the 1.1e-30 above; [nq n] = n as a rational;
+      the side condition 2 n EPS <= 1 says n <= 1e30). *)
+Theorem C04_reassembly_rational_sum_of_computed : forall F A xs rs,
+  0 < A -> sumZ xs = A -> Forall2 (prorated F A) xs rs ->
+  (Qabs (qsum rs - to_q F) <= C11 * Qabs (to_q F))%Q /\ (qabs_sum rs <= (1 + C11) * Qabs (to_q F))%Q.
+Proof. exact prorate_reassembly_q. Qed.
+Theorem C04_reassembly_decimal_sum : forall F A xs rs,
+  0 < A -> sumZ xs = A -> Forall2 (prorated F A) xs rs ->
+  (2 * nq (length rs) * EPS <= 1)%Q ->
+  (Qabs (to_q (dsum rs) - to_q F) <= nq (length rs) * C22 * Qabs (to_q F))%Q.
+Proof. exact prorate_reassembly_dec. Qed.
+(** the rounding of a 31-digit left-to-right sum in closed form: n * 1e-30 * (sum of the magnitudes) *)
+Theorem C04_decimal_sum_error : forall l, (2 * nq (length l) * EPS <= 1)%Q ->
+  (Qabs (to_q (dsum l) - qsum l) <= nq (length l) * (2 * EPS) * qabs_sum l)%Q.
+Proof. exact dsum_error_closed. Qed.
+
+(** an event's fractions add back to its taxable fiat value; a fully consumed lot's fractions to its full cost
+    ([g_proceeds], [g_cost]: the figures of a fraction, Model/Computed.v; [odflt]: they are defined here) *)
+Theorem C04_proceeds_add_back : forall e b, b <> [] ->
+  (forall g, In g b -> g_ev g = e /\ 0 < g_amt g) -> amt_sum b = t_balance_change e ->
+  let rs := map (fun g => odflt (g_proceeds g)) b in
+  let Fq := to_q (t_fiat_taxable e) in
+  (Qabs (qsum rs - Fq) <= C11 * Qabs Fq)%Q /\
+  ((2 * nq (length b) * EPS <= 1)%Q -> (Qabs (to_q (dsum rs) - Fq) <= nq (length b) * C22 * Qabs Fq)%Q).
+Proof. exact proceeds_reassembly. Qed.
+Theorem C04_cost_adds_back : forall a b, b <> [] ->
+  (forall g, In g b -> g_lot g = Some a /\ 0 < g_amt g) -> amt_sum b = i_crypto_in a ->
+  let rs := map (fun g => odflt (g_cost g)) b in
+  let Cq := to_q (i_fiat_in_with_fee a) in
+  (Qabs (qsum rs - Cq) <= C11 * Qabs Cq)%Q /\
+  ((2 * nq (length b) * EPS <= 1)%Q -> (Qabs (to_q (dsum rs) - Cq) <= nq (length b) * C22 * Qabs Cq)%Q).
+Proof. exact cost_reassembly. Qed.
+(** Non-vacuity (Proofs/C04Reassembly.v, history A of Proofs/L4Examples.v): [proceeds_instance] (the sale of row 5, split over two
+    lots), [cost_instance] (the lot of row 1, consumed by two sales), [reassembly_budget], [reassembly_values]. *)
+
 (** exchange-supplied fiat values are used in place of amount x spot price *)
 Theorem C04_supplied_values_out : forall r o, mk_out r = Ok o ->
   (forall v, ro_fiat_out_no_fee r = Some v -> o_fiat_out_no_fee o = of_grid v) /\
@@ -72,6 +114,11 @@ Print Assumptions C04_proceeds_accuracy.
 Print Assumptions C04_cost_accuracy.
 Print Assumptions C04_gain_accuracy.
 Print Assumptions C04_reassembly.
+Print Assumptions C04_reassembly_rational_sum_of_computed.
+Print Assumptions C04_reassembly_decimal_sum.
+Print Assumptions C04_decimal_sum_error.
+Print Assumptions C04_proceeds_add_back.
+Print Assumptions C04_cost_adds_back.
 Print Assumptions C04_supplied_values_out.
 Print Assumptions C04_supplied_values_in.
 Print Assumptions C04_decimal_context.
